@@ -168,6 +168,35 @@ def run(chk):
                             chk.violation(f'ppd-argument-ignored-{col}', f'read_asdf({col} file, load=(lagr_pos, pid), ppd={ppd_arg!r}) header={hk} (header ppd {headers[hk]["ppd"]!r}): lagr_pos is not the decode with the ppd that was passed', dict(col=col, header=hk))
     chk.part('ppd_argument', reads=nppd)
     nrun += nppd
+    # ---- a non-default data_key (the columns live in another subtree, as in files that keep 'rv_data' / 'pid_data' apart): detection, decoding and the
+    #      decoy 'data' subtree (holding ANOTHER raw column) must not interfere
+    ndk = 0
+    with warnings.catch_warnings():
+        warnings.simplefilter('ignore')
+        fnk = os.path.join(chk.scratch, 'datakey.asdf')
+        asdf.AsdfFile({'header': dict(headers['snapshot']), 'data': {'rvint': raw['rvint']}, 'pid_data': {'packedpid': raw['packedpid']}, 'rv_data': {'pack9': raw['pack9']}}).write_to(fnk)
+        fnk2 = os.path.join(chk.scratch, 'datakey2.asdf')
+        asdf.AsdfFile({'header': dict(headers['snapshot']), 'pid_data': {'pid': raw['pid']}}).write_to(fnk2)
+        for fn_, dk_, col_, kw_ in ((fnk, 'pid_data', 'packedpid', {}), (fnk, 'rv_data', 'pack9', {}), (fnk, 'pid_data', 'packedpid', dict(load=('pid', 'lagr_pos'))), (fnk2, 'pid_data', 'pid', {}),
+                                    (fnk, 'data', 'rvint', {}), (fnk, 'rv_data', 'pack9', dict(load=('vel',)))):
+            for dt in (np.float32, np.float64):
+                desc = f'read_asdf(data_key={dk_!r}, {kw_}) on a file with subtrees data / pid_data / rv_data'
+                try:
+                    t = read_asdf(fn_, dtype=dt, verbose=False, **({} if dk_ == 'data' else dict(data_key=dk_)), **kw_)
+                except Exception as e:  # noqa
+                    chk.violation(f'data-key-raises-{col_}', f'{desc}: {type(e).__name__}: {e}', dict(data_key=dk_))
+                    continue
+                ndk += 1
+                want, nrows = direct(raw, col_, dt)
+                if len(t) != nrows:
+                    chk.violation(f'data-key-rows-{col_}', f'{desc}: {len(t)} rows, the {col_} column of that subtree holds {nrows} particles', dict(data_key=dk_))
+                    continue
+                for cn in t.colnames:
+                    if cn not in want or not np.array_equal(np.asarray(t[cn]), want[cn]):
+                        chk.violation(f'data-key-values-{col_}', f'{desc}: column {cn} is not the decode of the {col_} column of subtree {dk_!r}', dict(data_key=dk_))
+                        break
+    chk.part('data_key', reads=ndk)
+    nrun += ndk
     # ---- files without particles (an empty light-cone slab): the table still has exactly the requested columns, with no rows
     empty = dict(rvint=np.zeros((0, 3), dtype=np.int32), pack9=np.zeros((0, 9), dtype=np.uint8), packedpid=np.zeros(0, dtype=np.uint64), pid=np.zeros(0, dtype=np.uint64))
     nempty = 0
